@@ -8,6 +8,9 @@
 use crate::util::*;
 use rssl::ir;
 
+#[path = "c06/e2e.rs"]
+mod e2e;
+
 #[derive(Clone, Debug, PartialEq)]
 pub enum Decl {
     /// `static` / `groupshared` global with an object type: lives in the shader, takes no slot
@@ -461,6 +464,12 @@ pub fn run(args: &Args, out: &mut Out) {
     if let Some(lines) = args.request_lines() {
         for line in lines {
             let f: Vec<&str> = line.split('\t').collect();
+            if f.first() == Some(&"C06.compile") {
+                if let Some((tgt, mode, prog)) = e2e::parse_request(&f) {
+                    e2e::run_case(tgt, &mode, &prog, out, &mut hist);
+                }
+                continue;
+            }
             if f.len() != 4 || f[0] != "C06.assign" {
                 continue;
             }
@@ -515,10 +524,19 @@ pub fn run(args: &Args, out: &mut Out) {
         run_seq(&ds, &configs, out, &mut hist);
         seqs += 1;
     }
+    // (4) end to end: whole generated files through rssl::compile, slots read from the returned metadata
+    let programs = args.n.map(|n| n / 4).unwrap_or(if args.thorough() { 6000 } else { 300 });
+    let mut erng = Rng::new(args.seed ^ 0xE2E);
+    for k in 0..programs {
+        // every other program has at least two pipelines (a layout must not leak from one pipeline to the next)
+        let prog = e2e::gen_prog(&mut erng, if k % 2 == 0 { 2 } else { 0 });
+        e2e::run_prog(&prog, &mut erng, out, &mut hist);
+    }
     out.stat(&format!(
-        "{{\"sequences\":{},\"configs_per_sequence\":{},\"hist\":{}}}",
+        "{{\"sequences\":{},\"configs_per_sequence\":{},\"e2e_programs\":{},\"hist\":{}}}",
         seqs,
         configs.len(),
+        programs,
         hist.json()
     ));
 }
